@@ -304,11 +304,37 @@ func exprKey(c *Ctx, in ssa.Instruction) string {
 
 func (k *c19) isReviewed(f *ssa.Function, expr string, site ...ssa.Instruction) (string, bool) {
 	m := reviewedPanicSites[reviewedFnKey(short(f.String()))]
-	if m == nil {
-		return "", false
+	var es []reviewedEntry
+	if m != nil {
+		es = m[expr]
 	}
-	es, ok := m[expr]
-	if !ok {
+	if len(es) == 0 {
+		// the code may have moved into an unexported helper of the same package that is handed the magnitude of the
+		// number (|x|, written phi($0|-$0) where the sign is stripped in place): entries of the package are tried with
+		// that value renamed to the helper's parameter
+		if f.Object() != nil && !f.Object().Exported() && f.Signature.Recv() == nil {
+			pkgPrefix := strings.TrimSuffix(short(f.String()), f.Name())
+			mag := func(s string) string { return strings.ReplaceAll(s, "phi($0|-$0)", "$0") }
+			for fn, mm := range reviewedPanicSites {
+				if !strings.HasPrefix(fn, pkgPrefix) || strings.Contains(fn[len(pkgPrefix):], ".") {
+					continue
+				}
+				for e, ents := range mm {
+					if !strings.Contains(e, "phi($0|-$0)") || mag(e) != expr {
+						continue
+					}
+					for _, en := range ents {
+						ne := reviewedEntry{why: en.why}
+						for _, n := range en.needs {
+							ne.needs = append(ne.needs, mag(n))
+						}
+						es = append(es, ne)
+					}
+				}
+			}
+		}
+	}
+	if len(es) == 0 {
 		return "", false
 	}
 	var conds []string
